@@ -49,7 +49,7 @@ pub const TABLE: &[(&str, &[(&str, f64)])] = &[
     ("C05", &[("vault", 1.0)]),
     ("C06", &[("access", 1.0), ("handshake", 0.25), ("gates", 0.25), ("forwarder", 0.25), ("sac_admin", 1.0), ("controller_ext", 0.25)]),
     ("C07", &[("handshake", 1.0)]),
-    ("C08", &[("timelock", 1.0), ("controller_ext", 1.0)]),
+    ("C08", &[("timelock", 1.0), ("controller_ext", 1.0), ("controller", 0.25)]),
     ("C09", &[("controller", 1.0), ("controller_ext", 0.5)]),
     ("C10", &[("nft_consecutive", 1.0), ("nft_enumerable", 1.0)]),
     ("C11", &[("nft_consecutive", 1.0), ("nft_enumerable", 1.0)]),
